@@ -112,7 +112,9 @@ func VC04_Invite() {
 	L, NB := rt.Param("L"), rt.Param("NB")
 	w := newWorld(worldOpts{nBackends: NB})
 	d := genDlg(L)
-	status := []int{180, 183, 200}[rt.Choice("status", 3)]
+	// any response carrying both tags pins the dialog: provisional, success, or a failure (the ACK
+	// of a 3xx-6xx answer belongs to the backend that sent it)
+	status := rt.Int("status", 101, 699)
 	b := establish(w, d, status)
 	if b < 0 {
 		return
